@@ -108,10 +108,53 @@ def run_job(job):
                 return got
         rk = "de"
 
+    def radicand_help(pr):
+        """The final sqrt's domain-error path: pc ends with  tL^2 + tC^2 + tH^2 + RT*tC*tH < 0.  Prove |RT| < 2 on the path (lemma),
+        then the path's infeasibility with the four factors abstracted to fresh reals (a 4-variable polynomial fact).  Falls back to
+        the plain obligation when the term does not have that shape."""
+        try:
+            lit = pr.pc[-1]
+            if not (z3.is_app(lit) and lit.decl().kind() == z3.Z3_OP_LT):
+                return None
+            rad = lit.arg(0)
+            if not (z3.is_app(rad) and rad.decl().kind() == z3.Z3_OP_ADD):
+                return None
+            squares, rest = [], []
+            for t in rad.children():
+                ch = t.children() if (z3.is_app(t) and t.decl().kind() == z3.Z3_OP_MUL) else []
+                if len(ch) == 2 and ch[0].get_id() == ch[1].get_id():
+                    squares.append(ch[0])
+                else:
+                    rest.append(t)
+            if len(squares) != 3 or len(rest) != 1:
+                return None
+            sq_ids = {x.get_id() for x in squares}
+            factors = []
+            stack = [rest[0]]
+            while stack:
+                t = stack.pop()
+                if z3.is_app(t) and t.decl().kind() == z3.Z3_OP_MUL:
+                    stack.extend(t.children())
+                else:
+                    factors.append(t)
+            others = [f for f in factors if f.get_id() not in sq_ids]
+            inner = [f for f in factors if f.get_id() in sq_ids]
+            if len(others) != 1 or len(inner) != 2:
+                return None
+            RT = others[0]
+            lemma = z3.And(RT > -2, RT < 2)
+            name = "never raises (ValueError: final radicand)"
+            abstract = [(x, "q%d" % i) for i, x in enumerate(squares)] + [(RT, "rt")]
+            return [("rotation term RT lies in (-2, 2)", lemma, {}),
+                    (name, z3.BoolVal(False), {"abstract": abstract, "lemmas": [lemma], "requires": ["rotation term RT lies in (-2, 2)"]})]
+        except Exception:
+            return None
+
     def on_path(pr):
         if pr.outcome == "exc":
-            pr.obligations = [("never raises (%s: %s)" % (type(pr.exc).__name__, str(pr.exc)[:100]), z3.BoolVal(False), {})]
-        runner.discharge(ID, job, pr, out, rk, timeout_ms=8000, ext_timeout_s=400)
+            obl = radicand_help(pr) if isinstance(pr.exc, ValueError) else None
+            pr.obligations = obl or [("never raises (%s: %s)" % (type(pr.exc).__name__, str(pr.exc)[:100]), z3.BoolVal(False), {})]
+        runner.discharge(ID, job, pr, out, rk, timeout_ms=8000, ext_timeout_s=200)
 
     eng.explore(fn, on_path, shard=tuple(job["shard"]) if job.get("shard") else None)
     out.d["stats"] = dict(eng.stats)
